@@ -134,6 +134,7 @@ class ScriptedRequest(L.Request):
         i = len(ch.v_handed)
         self.v_idx = i
         self.v_deferreds = []
+        self.v_ev = ch.v_events
         self.v_late = (i + ch.v_late) % 3      # which observer's handler registers the late observer
         ch.v_handed.append(self)
         ev = ch.v_events
@@ -147,7 +148,7 @@ class ScriptedRequest(L.Request):
             self.v_finish()
 
     def v_observe(self, obs, retval):
-        ev = self.channel.v_events
+        ev = self.v_ev                       # (self.channel is gone by the time notifications fire)
         i = self.v_idx
 
         def ok(r):
